@@ -575,6 +575,9 @@ class Server(BaseComponent):
         if sock in self._buffers:
             del self._buffers[sock]
 
+        if sock in self._closeq:
+            self._closeq.remove(sock)
+
         if sock in self._clients:
             self._clients.remove(sock)
         else:
